@@ -1110,3 +1110,53 @@ m('c15-is-integer-one-digit-fast-path', ['C15'], 'BigDecimal::is_integer:table',
         } else {
             (self.int_val.clone() % ten_to_the(self.scale as u64)).is_zero()""")],
   'is_integer answers true for every value with more digits than fraction places plus two (e.g. 12.3)')
+
+# ---- defects that arrive together with a new helper function (the checks see the helper inlined: inline.py)
+m('c10-sqrt-parity-defect-in-new-helper', ['C10'], 'root-shape[parity]', [
+  ('src/arithmetic/sqrt.rs', """    let exponent = shift + u64::from((i128::from(scale) + i128::from(shift)).is_odd());""",
+   """    let exponent = padded_exponent(shift, &scale_diff);"""),
+  ('src/arithmetic/sqrt.rs', """#[cfg(test)]
+mod test {""", """/// zeros to append so that the integer root has enough digits
+fn padded_exponent(shift: u64, scale_diff: &BigInt) -> u64 {
+    if scale_diff.is_odd() { shift + 1 } else { shift }
+}
+
+#[cfg(test)]
+mod test {""")],
+  'the original parity defect, hidden in an extracted helper')
+m('c08-div-guard-helper-checks-numerator', ['C08'], 'unguarded-return', [
+  ('src/impl_ops_div.rs', """    fn div(self, other: BigDecimal) -> BigDecimal {
+        if other.is_zero() {
+            panic!("Division by zero");
+        }""", """    fn div(self, other: BigDecimal) -> BigDecimal {
+        assert_divisible(&self, &other);"""),
+  ('src/impl_ops_div.rs', """impl Div<BigDecimal> for BigDecimal {""", """#[inline]
+fn assert_divisible(num: &BigDecimal, _den: &BigDecimal) {
+    if num.is_zero() && _den.is_zero() {
+        panic!("Division by zero");
+    }
+}
+
+impl Div<BigDecimal> for BigDecimal {""")],
+  'zero-divisor guard moved into a helper that only panics for 0/0')
+m('c02-eq-slow-path-helper-weak-length-guard', ['C02', 'C03', 'C19'], 'ZIP-LENGTH', [
+  ('src/impl_cmp.rs', """    let scaled_digits = scaled_int.to_radix_le(10);
+
+    // different lengths with trailing zeros
+    if overlap_digits.len() != scaled_digits.len() {
+        return false;
+    }
+
+    // return true if all digits are the same
+    overlap_digits.iter().zip(scaled_digits.iter()).all(|(digit_a, digit_b)| digit_a == digit_b)
+}""", """    let scaled_digits = scaled_int.to_radix_le(10);
+    same_digits(overlap_digits, &scaled_digits)
+}
+
+fn same_digits(overlap_digits: &[u8], scaled_digits: &[u8]) -> bool {
+    if overlap_digits.len() > scaled_digits.len() {
+        return false;
+    }
+    overlap_digits.iter().zip(scaled_digits.iter()).all(|(digit_a, digit_b)| digit_a == digit_b)
+}""")],
+  'digit comparison extracted into a helper whose length guard is one-sided')
